@@ -24,7 +24,11 @@ VARIABLES l, api, mode, ws, g, virt, pv
 tvars == <<l, api, mode, ws, g, virt, pv>>
 
 ToW(u) == <<u[1], u[2], u[3], u[4], u[5]>>
-UnitsOf(ev) == [i \in 1..Len(ev.units) |-> ToW(ev.units[i])]
+(* mania: n_objects is the index itself; the measured unit must count exactly one object *)
+UnitsOf(ev) == [i \in 1..Len(ev.units) |->
+                  IF ev.mode = "mania" THEN <<0, ev.units[i][2], ev.units[i][3], ev.units[i][4], ev.units[i][5]>>
+                  ELSE ToW(ev.units[i])]
+RawUnits(ev) == [i \in 1..Len(ev.units) |-> ToW(ev.units[i])]
 
 TraceInit == /\ l = 1 /\ api = "diff" /\ mode = "osu" /\ ws = <<>>
              /\ g = New("osu", <<>>) /\ virt = 0 /\ pv = 0
@@ -38,11 +42,13 @@ WellFormedUnits(m, u) ==
                          /\ (u[i][2] = 1 => u[i][5] = u[i][3] + 2)
        [] m = "taiko" -> u[i][1] \in {0, 1}
        [] m = "catch" -> u[i][1] + u[i][2] = 1
-       [] m = "mania" -> u[i][2] \in {0, 1} /\ u[i][3] >= 1 /\ (u[i][2] = 0 => u[i][3] = 1)
+       [] m = "mania" -> u[i][1] = 1 /\ u[i][2] \in {0, 1} /\ u[i][3] >= 1 /\ (u[i][2] = 0 => u[i][3] = 1)
 
 DoReset(ev) ==
   LET u == UnitsOf(ev) IN
-  /\ WellFormedUnits(ev.mode, u)                               \* C14: every object counted as exactly one kind
+  /\ WellFormedUnits(ev.mode, RawUnits(ev))                    \* C14: every object counted as exactly one kind
+  /\ ToW(ev.zero) = Zero5                                      \* C14: passed_objects(0) counts nothing
+  /\ ev.above_ok                                               \* C14: n above the total = not limiting at all
   /\ ev.len = LenOf(ev.mode, u, New(ev.mode, u))               \* machine's announced length
   /\ ev.len = Total(ev.mode, u)                                \* C02: = number of values
   /\ OneShot(ev.mode, u, Total(ev.mode, u)) = OneShot(ev.mode, u, UNLIMITED) \/ Total(ev.mode, u) = 0
